@@ -281,6 +281,7 @@ impl<'a> AliasLexer<'a> {
             'ł' => 'ɬ',
             'ñ' => 'ɲ',
             'φ' => 'ɸ',
+            '\u{035C}' => '\u{0361}', // the tie may be written below (`t͜s`); the base phones are spelt with the one above
             other => other,
         }
     }
